@@ -44,7 +44,9 @@ CLAIMED.update({
             "unified/CA) with theorems Model = Render/PDF equations (factor table incl. alpha 0/1 edges, 11 separable modes, "
             "SetSat/SetLum/ClipColor, HSL for alpha>0) and a one-quantisation-step correspondence on 10-bit/sRGB/float formats and "
             "division operators (regenerated to_linear and needs_division tables).",
-            TB + "Partial: the seven non-MULTIPLY integer blend modes only structurally (+0.5-step oracle); for operators/formats evaluated "
+            TB + "The eight integer PDF blend modes are proved for all inputs: every channel = rndDiv255(min 255^2 num) of the exact integer "
+            "PDF numerator, num/255^2 = the PDF 32000 value, within 127/255^2 (MULTIPLY 381/255^2) of it for premultiplied operands, "
+            "both bounds sharp (gap: rounding of the mask product). For operators/formats evaluated "
             "in floating point the theorems are over exact rationals (binary32 rounding not modelled, float destinations judged at 2^-16, "
             "sensitive modes on non-premultiplied or nearly-grey operands not judged: ~9% of requests); SIMD loop structure exercised, "
             "not modelled.", TECH, "DESIGN.md 6/C01"),
@@ -66,8 +68,11 @@ CLAIMED.update({
             "small-w projective transform_point exactly rounded with FALSE iff unrepresentable, never aborts, multiply/scale/rotate/"
             "translate as per-term rounded products with exact overflow reporting, bounds contains all corners; ~1e6 forked-child "
             "requests incl. white-box static helpers replayed through the model, exact __int128 oracle.",
-            TB + "Partial: |w| >= 65536 only within one unit (transformPoint_within_one_partial); float entry points and invert are "
-            "oracle/correspondence only (IEEE arithmetic is not modelled in the kernel).", TECH, "DESIGN.md 6/C11"),
+            TB + "For |w| >= 65536 the result is proved within 1/2 + 2^-15 unit of the exact quotient and FALSE only when the exact "
+            "quotient leaves int32 (no longer partial). Partial: the float entry points (f_invert, f_point, f_bounds, f_multiply, "
+            "to/from fixed) and pixman_transform_invert are proved over exact rationals (IEEE double rounding not modelled, *_partial) "
+            "and tied to the library by an exact __int128 verdict plus a per-request double-rounding bound. Known finding I1: exactly "
+            "singular matrices with large entries are inverted with TRUE when the double determinant is inexact.", TECH, "DESIGN.md 6/C11"),
 })
 
 CLAIMED.update({
